@@ -28,7 +28,8 @@ EXHAUSTIVE = {"quick": False, "thorough": False}
 MANIFEST = {
     "text": ("Proof (partial): Lean model of the default cascade (caller instance pushed down, wrapper defaults, field "
              "default / factory), argparse's string-default conversion, postprocess and bottom-up instantiation with the "
-             "Optional rule (an Optional member is None only when its own default is None, since fix 14a7541); theorems by "
+             "Optional rule (an Optional member is None only when its own default is None, since fix 14a7541, and every leaf "
+             "at ANY depth below it is at its wrapper default, since fixes 3f531df / f635f07); theorems by "
              "mutual induction over the class tree, any depth and width. With purely syntactic hypotheses: "
              "c01_no_caller_typed — a class all of whose fields carry typed defaults of their own (default_factory=Cls "
              "members, default_factory=lambda: inst members, Optional members = None, distinct field names) parses the empty "
@@ -62,11 +63,20 @@ DESTS = ["cfg", "a1", "b2", "train"]
 ALL_CR = ["AUTO", "EXPLICIT", "NONE", "ALWAYS_MERGE"]
 
 
+NEAR_BOOL = ["on", "off", "y", "n", "t", "f", "yes ", " true", "TRUE", "oui", "0", "1", "2", "enable", "On", "OFF", "no", "False", "nope"]
+NEAR_NUM = ["0", "1", "2", "1e3", "1_0", " 7", "0x10", "1.", ".5", "one", "inf", "nan", "-3", "+4", "1,5", "on"]
+
+
 def gen_leaf_value(rng, t):
     """a value of the annotation; a float-typed position sometimes holds an int (`x: float = 1`: accepted by every type
     checker, and `1 == 1.0` for Python while the two are different values for the model)"""
     v = G.gen_value(rng, t)
     inner = t["inner"] if t["k"] == "opt" else t
+    if inner["k"] == "union" and v["t"] != "none" and any(a["k"] == "str" for a in inner["alts"]) and rng.random() < 0.5:
+        # words NEAR the vocabularies of the members' parsers: the documented ones are converted on the way through argparse
+        # (open finding C01-union-str-default-converted), every other one must come back unchanged
+        pool = NEAR_NUM if not any(a["k"] == "bool" for a in inner["alts"]) else NEAR_BOOL
+        return {"t": "str", "v": rng.choice(pool)}
     if inner["k"] == "float" and v["t"] == "float" and rng.random() < 0.3:
         return {"t": "int", "v": str(rng.choice([0, 1, -1, 3, 100]))}
     if inner["k"] in ("list", "vtuple") and inner["item"]["k"] == "float" and v["t"] in ("list", "tuple") and rng.random() < 0.3:
@@ -77,6 +87,12 @@ def gen_leaf_value(rng, t):
 
 def gen_leaf(rng, nm, allow_required):
     t = G.gen_ty(rng, p_opt=0.2, p_union=0.03)
+    if rng.random() < 0.05:
+        # the usual auto/on/off switch: a Union whose first member has a word vocabulary of its own
+        alts = rng.choice([["bool", "str"], ["bool", "str"], ["bool", "str"], ["int", "str"], ["float", "str"], ["bool", "int", "str"]])
+        t = {"k": "union", "alts": [{"k": a} for a in alts]}
+        if rng.random() < 0.25:
+            t = {"k": "opt", "inner": t}
     if allow_required and rng.random() < 0.2:
         d = {"kind": "missing"}
     elif t["k"] == "opt" and rng.random() < 0.5:
@@ -741,9 +757,50 @@ def _leaf_default_value(f):
     return d["v"] if d["kind"] == "value" else None
 
 
+BOOL_WORDS = {"true": True, "yes": True, "y": True, "t": True, "1": True, "false": False, "no": False, "n": False, "f": False, "0": False}
+
+
+def clean_union_conversion(alts, s):
+    """What the DOCUMENTED rule makes of a str default of a Union-typed field (argparse runs str defaults through type=,
+    the members' parsers are tried in declaration order, the first that accepts wins): an independent transcription —
+    bool: true/false/yes/no/y/n/t/f/1/0, case-insensitive, surrounding blanks ignored; int / float: Python's int() /
+    float() syntax; str: the string itself. Returns the canonical converted value, None when the string stays a string,
+    and "unknown" for a member kind this transcription does not cover (then nothing is attributed)."""
+    for a in alts:
+        k = a["k"]
+        if k == "str":
+            return None
+        if k == "bool":
+            w = s.strip().lower()
+            if w in BOOL_WORDS:
+                return {"t": "bool", "v": BOOL_WORDS[w]}
+        elif k == "int":
+            try:
+                return {"t": "int", "v": str(int(s))}
+            except ValueError:
+                pass
+        elif k == "float":
+            try:
+                return {"t": "float", "v": repr(float(s))}
+            except (ValueError, OverflowError):
+                pass
+        else:
+            return "unknown"
+    return None
+
+
+def _clean_converted(inner, v):
+    """is `v` a str default of the Union annotation `inner` that the documented rule converts? -> the converted value"""
+    if inner["k"] != "union" or not isinstance(v, dict) or v.get("t") != "str":
+        return None
+    exp = clean_union_conversion(inner["alts"], v["v"])
+    return exp if isinstance(exp, dict) else None
+
+
 def _has_converted_default_leaf(tree, kinds):
-    """does the tree (any depth) hold a leaf whose OWN default is rewritten on the way through argparse/postprocess:
-    'union' = a str default of a Union-typed leaf; 'literal' = a Literal default shadowed by a later value with the same str()"""
+    """does the tree (any depth) hold a leaf whose OWN default is rewritten on the way through argparse/postprocess BY THE
+    DOCUMENTED RULES: 'union' = a str default of a Union-typed leaf that an earlier member's documented vocabulary accepts;
+    'literal' = a Literal default shadowed by a later value with the same str()"""
     for f in tree["fields"]:
         if f["kind"] == "leaf":
             t = f["f"]["ty"]
@@ -751,7 +808,7 @@ def _has_converted_default_leaf(tree, kinds):
             v = _leaf_default_value(f)
             if v is None:
                 continue
-            if "union" in kinds and inner["k"] == "union" and v["t"] == "str":
+            if "union" in kinds and _clean_converted(inner, v) is not None:
                 return True
             if "literal" in kinds and inner["k"] == "literal" and G.literal_expressible(inner, v) != v:
                 return True
@@ -761,12 +818,14 @@ def _has_converted_default_leaf(tree, kinds):
 
 
 def _explained(r, path, got, ref):
-    """why may this leaf / member legitimately-known differ? 'union' | 'literal' | None"""
+    """why may this leaf / member differ for a KNOWN reason? 'union' | 'literal' | None. Exact: only what the documented
+    conversion rules do to this very default — a default those rules keep but the code converts is NOT explained."""
     f = find_field(r["tree"], path)
     if not f:
         return None
     if f["kind"] == "child":
-        # an Optional member holding such a leaf looks 'touched' and is built instead of staying None
+        # an Optional member holding such a leaf — directly or, since fixes 3f531df / f635f07 (`_is_at_default` looks
+        # through the nested members), at ANY depth below it — looks 'touched' and is built instead of staying None
         if (f["optional"] and isinstance(got, dict) and got.get("t") == "inst" and isinstance(ref, dict) and ref.get("t") == "none"):
             if _has_converted_default_leaf(f["tree"], {"union"}):
                 return "union"
@@ -775,8 +834,8 @@ def _explained(r, path, got, ref):
         return None
     t = f["f"]["ty"]
     inner = t["inner"] if t["k"] == "opt" else t
-    if (inner["k"] == "union" and isinstance(ref, dict) and ref.get("t") == "str" and isinstance(got, dict)
-            and got.get("t") in ("int", "float", "bool")):
+    exp = _clean_converted(inner, ref)
+    if exp is not None and got == exp:
         return "union"
     if inner["k"] == "literal" and isinstance(ref, dict) and G.literal_expressible(inner, ref) != ref and got == G.literal_expressible(inner, ref):
         return "literal"
